@@ -1,10 +1,10 @@
 PROP = dict(
     id="C15",
-    lean_modules=["TongoProofs.C15"],
-    gen=["WalletConsts"],
+    lean_modules=["TongoProofs.C15", "TongoProofs.C15Tlb"],
+    gen=["WalletConsts", "WalletV5Id", "TlbTypes"],
     # the model IS the specification for these ops: the address is defined as the hash of the state-init laid out as
     # the TON schema says, the send parameters and the confirmation verdict are what the property states
-    spec_ops=("w.addr", "w.gwa", "w.gsi", "w.send", "w.ctx", "cell.hash"),
+    spec_ops=("w.addr", "w.gwa", "w.gsi", "w.send", "w.sendc", "w.ctx", "cell.hash", "seed.key", "prim.sha512", "prim.hmac512", "prim.pbkdf2_512"),
     rule="addresses: every supported version x random Ed25519 keys x workchain in {default,0,-1,1,127,-128,255} x "
          "sub-wallet id in {default,0,2^32-1,698983191(+-1),random} x network id in {default,-239,-3,0,int32 bounds,random} "
          "through New().GetAddress, GenerateWalletAddress, GenerateStateInit; unsupported versions and odd key lengths; "
@@ -13,8 +13,15 @@ PROP = dict(
          "SendMessage errors, 0..max+50 messages, confirmation histories (never, advance at poll 1..5, only after the "
          "deadline, errors interleaved, error answers carrying larger numbers) with 300 ms real waits, plus "
          "scheduling-dependent histories (advance at poll 1..12) judged against the polls actually served. "
+         "context cancellation before call 0,1,2,3,4,6,11,13 of a send against a context-honouring blockchain (model comparison "
+         "where scheduling cannot matter, direct oracle otherwise); "
+         "mnemonics: random 12..24-word texts (255/256 rejected by the version byte), accepted seeds found by an independent "
+         "composition and their one-character / eleven-word variants, field-counting oddities (spaces only, tabs, double "
+         "spaces, words outside the list), RandomSeed draws; "
          "non-trivial = distinct (version,key,options) address case or distinct (version,state,history,count,errors) send case",
     trusted_base=[
+        "translator X1 (TlbTypes): the wallet struct descriptors are regenerated from wallet/*.go on every run; the hand-written "
+        "layouts are proved equal to Tlb.encode on them (TongoProofs/C15Tlb.lean), so a field swap / width change breaks an obligation",
         "translator WalletConsts (harness/cmd/extract, go/ast): DefaultSubWallet, MainnetGlobalID, the v5 opcodes, the Version enumeration and maxMessageNumber() literals are re-read from wallet/*.go on every run and stated as decide-d obligations against the model (lean/TongoGen/WalletConsts.lean)",
         "hand model lean/TongoModel/{Wallet,WalletSend,CellOrd,CellRead}.lean tied to wallet/*.go, tlb/account.go by "
         "correspondence on every run (addresses bit-exact through SHA-256, captured payload decoded by fixed offsets)",
@@ -33,7 +40,10 @@ PROP = dict(
         "v1/v2 wallets cannot send (createSignedMsgBodyCell / NextMessageParams panic 'implement me'): modelled as panic",
         "the sub-wallet id option is ignored by v1/v2 and v5r1 (no such field / not configurable in the Go API); "
         "injectivity is stated over the fields the version's data holds",
-        "mnemonic derivation (wallet/seed.go) is not modelled",
+        "mnemonic -> key: HMAC-SHA-512 / PBKDF2-SHA-512 are parameters of the theorems; the driver runs the Lean SHA-512 "
+        "primitives with the REAL iteration counts (390 and 100000; about 4 s per accepted seed, so 3 accepted seeds in the "
+        "quick tier, 20 in the thorough tier, plus hundreds of rejected ones) and they are validated against crypto/* per run; "
+        "Ed25519 key expansion is not modelled (the 32-byte Ed25519 seed is compared)",
     ],
     partial=[],
     level_text="Theorems for all inputs about the Lean model: the address is (int32 workchain, H(state-init "
@@ -48,5 +58,5 @@ PROP = dict(
                "collision-freedom assumption",
     technique="functional model + structural proofs (append/bit-list injectivity), differential correspondence with "
               "scripted blockchain interface, direct property oracles",
-    line_timeout="30s",
+    line_timeout="120s",
 )
